@@ -1085,12 +1085,28 @@ func (b *ASTBuilder) buildAttribute(tsNode *sitter.Node) *Node {
 	node := NewNode(NodeAttribute)
 	node.Location = b.getLocation(tsNode)
 
+	var splat *Node
 	if object := b.getChildByFieldName(tsNode, "object"); object != nil {
-		node.Value = b.buildNode(object)
+		obj := b.buildNode(object)
+		// tree-sitter parses a starred first target "*a.b, c = xs" as "(*a).b".
+		// A splat is never the object of an attribute: the attribute belongs
+		// inside it, as in "c, *a.b = xs"
+		if obj != nil && (obj.Type == "list_splat" || obj.Type == "list_splat_pattern") && len(obj.Children) > 0 {
+			splat = obj
+			node.Value = splat.Children[len(splat.Children)-1]
+		} else {
+			node.Value = obj
+		}
 	}
 
 	if attr := b.getChildByFieldName(tsNode, "attribute"); attr != nil {
 		node.Name = b.getNodeText(attr)
+	}
+
+	if splat != nil {
+		node.Parent = splat
+		splat.Children[len(splat.Children)-1] = node
+		return splat
 	}
 
 	return node
